@@ -218,8 +218,9 @@ def _call(args):
 def pmap(fn, items, procs=None, init=None, chunksize=8):
     """Fork-based parallel map; fn must be a module-level function."""
     items = list(items)
+    explicit = procs is not None
     procs = procs or min(os.cpu_count() or 4, 16)
-    if len(items) < 24 or procs == 1:
+    if procs == 1 or len(items) <= 1 or (len(items) < 24 and not explicit):
         _init_worker(init)
         return [_call((fn, it)) for it in items]
     ctx = mp.get_context('fork')
